@@ -27,7 +27,7 @@ func init() {
 	add("C09", checkSingleSignalHandler, checkManagedThread, checkTeardownBeforeAnswer)
 	add("C10", checkReleaseCallers, checkFrontEndReadsBody)
 	add("C12", checkInteropErrorMapping)
-	add("C13", checkFunctionMetadataWriters, checkRegistrationRefusals)
+	add("C13", checkFunctionMetadataWriters, checkRegistrationRefusals, checkRegisterTellsIdentifier)
 	add("C14", checkResponseBodyUnwrapped, checkNoBodyLimitWrappers)
 	add("C16", checkExecEnvComplete, checkSetHandlerUnconditional, checkConfigureBeforeCreate)
 	add("C17", checkReservationTokenFromRequest, checkResponseModeConstants, checkBufferedDirectAlwaysReports)
@@ -128,7 +128,26 @@ func checkSubscribedAgentsFiltered(c *report.Ctx) {
 				appends++
 				if !facts.Holds(in.Block(), func(ft an.Fact) bool {
 					cl, _ := an.CallOf(ft.Cond)
-					return ft.Val && cl != nil && strings.HasSuffix(an.Callee(cl), "Agent.IsSubscribed")
+					if !ft.Val || cl == nil {
+						return false
+					}
+					if strings.HasSuffix(an.Callee(cl), "Agent.IsSubscribed") {
+						return true
+					}
+					// a predicate handed in as a function value: the closure must be "IsSubscribed(event)"
+					if k := closureBehind(cl); k != nil {
+						for _, e := range an.Exits(k) {
+							if len(e.Vals) != 1 {
+								return false
+							}
+							rc, _ := an.CallOf(e.Vals[0])
+							if rc == nil || !strings.HasSuffix(an.Callee(rc), "Agent.IsSubscribed") {
+								return false
+							}
+						}
+						return true
+					}
+					return false
 				}) {
 					guarded = false
 				}
@@ -579,7 +598,7 @@ func checkInitFailureCarriesError(c *report.Ctx) {
 			pos = an.InstrPos(e.Ret)
 		}
 	}
-	c.Check("R-ORDER", an.FuncName(f)+"/failure-carries-type-and-message", "every failing return has filled in the init error type and message (Invoke calls .Error() on the message in a goroutine nobody recovers)", ok && n >= 2, pos, n, "failing exits: %d, all after both stores: %v", n, ok)
+	c.Check("R-ORDER", an.FuncName(f)+"/failure-carries-type-and-message", "every failing return has filled in the init error type and message (Invoke calls .Error() on the message in a goroutine nobody recovers)", ok && n >= 1, pos, n, "failing exits: %d, all after both stores: %v", n, ok)
 }
 
 // checkFunctionMetadataWriters: what extensions are told about the function is set once per emulator, by the init
@@ -868,6 +887,22 @@ func checkResponseModeConstants(c *report.Ctx) {
 			ok = false
 			pos = an.InstrPos(e.Ret)
 		}
+		// a constant is returned on the edge where the header was found equal to that very constant
+		if s, isC := an.ConstString(e.Vals[0]); isC {
+			facts := an.NewFacts(f)
+			if !facts.Holds(e.Ret.Block(), func(ft an.Fact) bool {
+				cl, _ := an.CallOf(ft.Cond)
+				if !ft.Val || cl == nil || an.Callee(cl) != "strings.EqualFold" {
+					return false
+				}
+				a, _ := an.ConstString(cl.Call.Args[1])
+				b, _ := an.ConstString(cl.Call.Args[0])
+				return a == s || b == s
+			}) {
+				ok = false
+				pos = an.InstrPos(e.Ret)
+			}
+		}
 	}
 	c.Check("R-WIRE", an.FuncName(f)+"/returns-declared-constants", "the mode returned for a recognised header value is a declared constant, not the header's own spelling (later comparisons are exact)", ok && n >= 1, pos, n, "successful exits: %d, none returning the input text: %v", n, ok)
 }
@@ -922,4 +957,91 @@ func checkCredentialsNotInEnvironment(c *report.Ctx) {
 	}
 	visit(f, 0)
 	c.Check("R-WHO", an.FuncName(f)+"/credentials-stay-out-of-the-environment", "in snapshot mode the environment is filled by StoreEnvironmentVariablesFromInitForInitCaching only (the plain variant puts the temporary credentials into the environment of the runtime and of every extension)", len(plain) == 0 && caching == 1, fpos(f), caching+len(plain), "init-caching store calls: %d; plain store reached from: %v", caching, plain)
+}
+
+// checkRegisterTellsIdentifier: a successful registration tells the extension its identifier, in the header, before
+// the body is rendered.
+func checkRegisterTellsIdentifier(c *report.Ctx) {
+	f := fn(c, "L/rapi/handler", "(*agentRegisterHandler).renderResponse")
+	if f == nil {
+		return
+	}
+	k := c.P.Const("L/rapi/handler", "LambdaAgentIdentifier")
+	want := ""
+	if k != nil {
+		want, _ = an.ConstString(k.Value)
+	}
+	var sets []ssa.Instruction
+	for _, call := range an.CallsTo(f, "net/http.Header.Set") {
+		a := call.Common().Args
+		if s, isC := an.ConstString(a[1]); isC && s == want && want != "" {
+			if _, isP := an.Strip(a[2], false).(*ssa.Parameter); isP {
+				sets = append(sets, call)
+			}
+		}
+	}
+	ok := len(sets) == 1
+	if ok {
+		for _, r := range an.CallsTo(f, "L/rapi/rendering.RenderJSON") {
+			if !an.InstrDominates(sets[0], r) {
+				ok = false
+			}
+		}
+	}
+	c.Check("R-ORDER", an.FuncName(f)+"/identifier-header", "the registration reply carries the extension's identifier in the "+want+" header, set before the body is written (every later call must present it)", ok, fpos(f), len(sets), "header set from the identifier parameter: %d; before RenderJSON: %v", len(sets), ok)
+}
+
+// closureBehind resolves the function a call through a captured variable reaches: the callee value is a load of a
+// free variable whose cell, in the enclosing function, is stored exactly once, with a closure or named function.
+func closureBehind(call *ssa.Call) *ssa.Function {
+	v := call.Call.Value
+	if sc := call.Call.StaticCallee(); sc != nil {
+		return sc
+	}
+	ld, ok := v.(*ssa.UnOp)
+	if !ok || ld.Op != token.MUL {
+		return nil
+	}
+	fv, ok := ld.X.(*ssa.FreeVar)
+	if !ok {
+		return nil
+	}
+	g := call.Parent()
+	parent := g.Parent()
+	if parent == nil {
+		return nil
+	}
+	idx := -1
+	for i, x := range g.FreeVars {
+		if x == fv {
+			idx = i
+		}
+	}
+	var cell ssa.Value
+	an.AllInstrs(parent, func(in ssa.Instruction) {
+		if mc, ok := in.(*ssa.MakeClosure); ok && mc.Fn == ssa.Value(g) && idx >= 0 && idx < len(mc.Bindings) {
+			cell = mc.Bindings[idx]
+		}
+	})
+	al, ok := cell.(*ssa.Alloc)
+	if !ok {
+		return nil
+	}
+	var fnv *ssa.Function
+	n := 0
+	for _, r := range *al.Referrers() {
+		if st, ok := r.(*ssa.Store); ok && st.Addr == ssa.Value(al) {
+			n++
+			switch x := an.Strip(st.Val, false).(type) {
+			case *ssa.MakeClosure:
+				fnv, _ = x.Fn.(*ssa.Function)
+			case *ssa.Function:
+				fnv = x
+			}
+		}
+	}
+	if n != 1 {
+		return nil
+	}
+	return fnv
 }
